@@ -1,4 +1,565 @@
-(* placeholder: model under construction *)
-From Coq Require Import List ZArith.
+(* Executable model of TexSoup.data.TexArgs (the argument list of a node), of
+   TexGroup.parse / BraceGroup / BracketGroup / arg_type, and of the textual
+   equality TexExpr.__eq__ that list.remove / list.index / `in` use.
+
+   Python strings are lists of code points (Z).  A group is (kind, body):
+   kind = false is BraceGroup, kind = true is BracketGroup; body is the string
+   the group was built from (BraceGroup(body)), so str(group) is
+   begin + body + end.  An element of the shadow list `.all` is a group or a
+   (whitespace) string.  Everything below the line "Reference list machine" is
+   the specification side used by property C18, not a model of code.
+
+   Scope notes (also stated in harness/corr_args.py):
+   * str.isspace is modelled for every code point (the Unicode White_Space-like
+     set CPython uses); the harness checks that set against the running Python.
+   * groups are built from one string (as TexGroup.parse builds them); commands
+     (TexCmd) as list elements are not modelled.
+   * slices have step 1. *)
+From Coq Require Import List ZArith Bool.
 Import ListNotations.
-Definition run_args (inp : list Z) : list Z := [].
+Local Open Scope Z_scope.
+
+Definition pstr := list Z.
+
+Fixpoint pstr_eqb (a b : pstr) : bool :=
+  match a, b with
+  | [], [] => true
+  | x :: a', y :: b' => Z.eqb x y && pstr_eqb a' b'
+  | _, _ => false
+  end.
+
+Definition zlen {A} (l : list A) : Z := Z.of_nat (length l).
+
+(* ------------------------------------------------------------------ *)
+(* Python built-ins used by the code                                   *)
+
+(* str.isspace(): at least one character and every character is whitespace *)
+Definition is_space_char (c : Z) : bool :=
+  ((9 <=? c) && (c <=? 13)) || ((28 <=? c) && (c <=? 32)) || (c =? 133) || (c =? 160)
+  || (c =? 5760) || ((8192 <=? c) && (c <=? 8202)) || (c =? 8232) || (c =? 8233)
+  || (c =? 8239) || (c =? 8287) || (c =? 12288).
+
+Definition is_space (s : pstr) : bool :=
+  match s with
+  | [] => false
+  | _ :: _ => forallb is_space_char s
+  end.
+
+Fixpoint starts_with (s p : pstr) : bool :=
+  match p, s with
+  | [], _ => true
+  | y :: p', x :: s' => Z.eqb x y && starts_with s' p'
+  | _ :: _, [] => false
+  end.
+
+Definition ends_with (s p : pstr) : bool := starts_with (rev s) (rev p).
+
+(* ''.join(parts) *)
+Definition py_join (parts : list pstr) : pstr := fold_left (fun acc s => acc ++ s) parts [].
+
+Section PyList.
+  Context {A : Type}.
+
+  (* index normalisation of list.insert (CPython ins1) *)
+  Definition norm_insert (n i : Z) : Z :=
+    let i := if i <? 0 then i + n else i in
+    if i <? 0 then 0 else if n <? i then n else i.
+
+  Fixpoint insert_at (k : nat) (x : A) (l : list A) : list A :=
+    match k, l with
+    | O, _ => x :: l
+    | S k', [] => [x]
+    | S k', y :: t => y :: insert_at k' x t
+    end.
+
+  Definition py_insert (i : Z) (x : A) (l : list A) : list A :=
+    insert_at (Z.to_nat (norm_insert (zlen l) i)) x l.
+
+  (* list.index(v) with "element == v" given as a predicate; None = ValueError *)
+  Fixpoint py_index (p : A -> bool) (l : list A) : option nat :=
+    match l with
+    | [] => None
+    | x :: t => if p x then Some O else option_map S (py_index p t)
+    end.
+
+  (* list.remove(v); None = ValueError *)
+  Fixpoint py_remove (p : A -> bool) (l : list A) : option (list A) :=
+    match l with
+    | [] => None
+    | x :: t => if p x then Some t else option_map (cons x) (py_remove p t)
+    end.
+
+  Fixpoint pop_at (k : nat) (l : list A) : option (A * list A) :=
+    match l, k with
+    | [], _ => None
+    | x :: t, O => Some (x, t)
+    | x :: t, S k' => match pop_at k' t with
+                      | Some (y, t') => Some (y, x :: t')
+                      | None => None
+                      end
+    end.
+
+  (* list.pop(i); None = IndexError (empty list or index out of range) *)
+  Definition py_pop (i : Z) (l : list A) : option (A * list A) :=
+    let n := zlen l in
+    if n =? 0 then None
+    else let j := if i <? 0 then i + n else i in
+         if (j <? 0) || (n <=? j) then None else pop_at (Z.to_nat j) l.
+
+  (* list[i] for an int; None = IndexError *)
+  Definition py_getitem (i : Z) (l : list A) : option A :=
+    let n := zlen l in
+    let j := if i <? 0 then i + n else i in
+    if (j <? 0) || (n <=? j) then None else nth_error l (Z.to_nat j).
+
+  (* slice index adjustment for step 1 (PySlice_AdjustIndices) *)
+  Definition clamp_index (n v : Z) : Z :=
+    let v := if v <? 0 then v + n else v in
+    if v <? 0 then 0 else if n <? v then n else v.
+
+  (* list[lo:hi] *)
+  Definition py_slice (lo hi : option Z) (l : list A) : list A :=
+    let n := zlen l in
+    let start := match lo with None => 0 | Some v => clamp_index n v end in
+    let stop := match hi with None => n | Some v => clamp_index n v end in
+    if start <? stop
+    then firstn (Z.to_nat (stop - start)) (skipn (Z.to_nat start) l)
+    else [].
+End PyList.
+
+(* ------------------------------------------------------------------ *)
+(* Groups, items, textual equality                                     *)
+
+Definition group := (bool * pstr)%type.          (* false = brace, true = bracket *)
+
+Definition open_of (k : bool) : Z := if k then 91 else 123.    (* '[' '{' *)
+Definition close_of (k : bool) : Z := if k then 93 else 125.   (* ']' '}' *)
+
+(* str(group) = begin + str(group.args) + contents + end, group.args is empty *)
+Definition render (g : group) : pstr := open_of (fst g) :: snd g ++ [close_of (fst g)].
+
+Inductive item := IG (g : group) | IW (s : pstr).
+
+Definition render_item (it : item) : pstr :=
+  match it with IG g => render g | IW s => s end.
+
+(* TexExpr.__eq__: str(other) == str(self); str == str; str == group falls back
+   to the reflected TexExpr.__eq__.  All of them compare the rendered strings. *)
+Definition item_eqb (a b : item) : bool := pstr_eqb (render_item a) (render_item b).
+
+(* an argument handed to a TexArgs method: a group object or a Python str *)
+Inductive arg := AG (g : group) | AS (s : pstr).
+
+(* TexGroup.parse: for arg in (BracketGroup, BraceGroup):
+     if s.startswith(begin) and s.endswith(end): return arg(s[len(begin):-len(end)])
+   None = TypeError *)
+Definition parse_kind (k : bool) (s : pstr) : option group :=
+  if starts_with s [open_of k] && ends_with s [close_of k]
+  then Some (k, py_slice (Some 1) (Some (-1)) s)
+  else None.
+
+Definition parse_group (s : pstr) : option group :=
+  match parse_kind true s with
+  | Some g => Some g
+  | None => parse_kind false s
+  end.
+
+(* TexArgs.__coerce; None = TypeError *)
+Definition coerce (a : arg) : option item :=
+  match a with
+  | AG g => Some (IG g)
+  | AS s => if is_space s then Some (IW s)
+            else match parse_group s with
+                 | Some g => Some (IG g)
+                 | None => None
+                 end
+  end.
+
+(* ------------------------------------------------------------------ *)
+(* TexArgs                                                             *)
+
+Definition state := (list group * list item)%type.     (* (list itself, self.all) *)
+
+Inductive out :=
+| ONone                       (* returned None *)
+| OVal (it : item)            (* returned an element *)
+| OArgs (st : state)          (* returned a new TexArgs *)
+| OBool (b : bool)
+| ETypeError | EValueError | EIndexError.
+
+Inductive op :=
+| OpAppend (a : arg)
+| OpExtend (l : list arg)
+| OpInsert (i : Z) (a : arg)
+| OpRemove (a : arg)
+| OpPop (i : option Z)        (* None: pop() called without an index *)
+| OpReverse
+| OpClear
+| OpGet (i : Z)
+| OpSlice (lo hi : option Z)
+| OpContains (a : arg).
+
+Definition empty_state : state := ([], []).
+
+Definition m_insert (st : state) (i : Z) (a : arg) : state * out :=
+  match coerce a with
+  | None => (st, ETypeError)
+  | Some it =>
+    let '(lst, all) := st in
+    let n := zlen lst in
+    let i := if i <? 0 then Z.max 0 (n + i) else Z.min i n in
+    let lst1 := match it with IG g => py_insert i g lst | IW _ => lst end in
+    if zlen lst1 <=? 1 then ((lst1, all ++ [it]), ONone)
+    else if i =? 0 then ((lst1, py_insert 0 it all), ONone)
+    else match py_getitem (i - 1) lst1 with
+         | None => ((lst1, all), EIndexError)
+         | Some before =>
+           match py_index (fun x => item_eqb x (IG before)) all with
+           | None => ((lst1, all), EValueError)
+           | Some j => ((lst1, py_insert (Z.of_nat j + 1) it all), ONone)
+           end
+         end
+  end.
+
+Definition m_append (st : state) (a : arg) : state * out := m_insert st (zlen (fst st)) a.
+
+(* for arg in args: self.append(arg) -- an exception ends the loop *)
+Fixpoint m_extend (st : state) (l : list arg) : state * out :=
+  match l with
+  | [] => (st, ONone)
+  | a :: t => match m_append st a with
+              | (st1, ONone) => m_extend st1 t
+              | r => r
+              end
+  end.
+
+Definition m_remove (st : state) (a : arg) : state * out :=
+  match coerce a with
+  | None => (st, ETypeError)
+  | Some it =>
+    let '(lst, all) := st in
+    match py_remove (fun x => item_eqb x it) all with
+    | None => (st, EValueError)
+    | Some all1 =>
+      match py_remove (fun g => item_eqb (IG g) it) lst with
+      | None => ((lst, all1), EValueError)
+      | Some lst1 => ((lst1, all1), ONone)
+      end
+    end
+  end.
+
+Definition m_pop (st : state) (i : option Z) : state * out :=
+  match i with
+  | None => (st, ETypeError)        (* pop() missing 1 required positional argument *)
+  | Some i =>
+    let '(lst, all) := st in
+    match py_pop i lst with
+    | None => (st, EIndexError)
+    | Some (g, lst1) =>
+      match py_index (fun x => item_eqb x (IG g)) all with
+      | None => ((lst1, all), EValueError)
+      | Some j =>
+        match py_pop (Z.of_nat j) all with
+        | None => ((lst1, all), EIndexError)
+        | Some (it, all1) => ((lst1, all1), OVal it)
+        end
+      end
+    end
+  end.
+
+(* TexArgs(value): __init__ = empty list, self.all = [], self.extend(value) *)
+Definition m_new (l : list arg) : state * out := m_extend empty_state l.
+
+Definition m_contains (st : state) (a : arg) : bool :=
+  match a with
+  | AS s => existsb (fun g => pstr_eqb s (snd g)) (fst st)     (* item == arg.string *)
+  | AG g => existsb (fun x => item_eqb (IG x) (IG g)) (fst st)
+  end.
+
+Definition m_step (st : state) (o : op) : state * out :=
+  match o with
+  | OpAppend a => m_append st a
+  | OpExtend l => m_extend st l
+  | OpInsert i a => m_insert st i a
+  | OpRemove a => m_remove st a
+  | OpPop i => m_pop st i
+  | OpReverse => ((rev (fst st), rev (snd st)), ONone)
+  | OpClear => (empty_state, ONone)
+  | OpGet i => match py_getitem i (fst st) with
+               | Some g => (st, OVal (IG g))
+               | None => (st, EIndexError)
+               end
+  | OpSlice lo hi =>
+      match m_new (map AG (py_slice lo hi (fst st))) with
+      | (st', ONone) => (st, OArgs st')
+      | (_, e) => (st, e)
+      end
+  | OpContains a => (st, OBool (m_contains st a))
+  end.
+
+(* str(args) = ''.join(map(str, self)); len(args) *)
+Definition m_str (st : state) : pstr := py_join (map render (fst st)).
+Definition m_len (st : state) : Z := zlen (fst st).
+(* what the owning command prints: '\\%s%s' % (name, args) *)
+Definition cmd_str (name : pstr) (st : state) : pstr := 92 :: name ++ m_str st.
+
+(* the states and outcomes after every operation *)
+Fixpoint m_run (st : state) (ops : list op) : list (state * out) :=
+  match ops with
+  | [] => []
+  | o :: t => let r := m_step st o in r :: m_run (fst r) t
+  end.
+
+(* ------------------------------------------------------------------ *)
+(* Generic driver interface: decode a case, run, encode observations    *)
+
+Definition take_str (inp : list Z) : option (pstr * list Z) :=
+  match inp with
+  | n :: rest =>
+    if (n <? 0) || (zlen rest <? n) then None
+    else Some (firstn (Z.to_nat n) rest, skipn (Z.to_nat n) rest)
+  | [] => None
+  end.
+
+Definition take_arg (inp : list Z) : option (arg * list Z) :=
+  match inp with
+  | 0 :: k :: rest =>
+    match take_str rest with
+    | Some (s, rest') => Some (AG (negb (k =? 0), s), rest')
+    | None => None
+    end
+  | 1 :: rest =>
+    match take_str rest with
+    | Some (s, rest') => Some (AS s, rest')
+    | None => None
+    end
+  | _ => None
+  end.
+
+Fixpoint take_args (n : nat) (inp : list Z) : option (list arg * list Z) :=
+  match n with
+  | O => Some ([], inp)
+  | S n' => match take_arg inp with
+            | Some (a, rest) => match take_args n' rest with
+                                | Some (l, rest') => Some (a :: l, rest')
+                                | None => None
+                                end
+            | None => None
+            end
+  end.
+
+Definition take_arglist (inp : list Z) : option (list arg * list Z) :=
+  match inp with
+  | n :: rest => if n <? 0 then None else take_args (Z.to_nat n) rest
+  | [] => None
+  end.
+
+Definition take_optz (inp : list Z) : option (option Z * list Z) :=
+  match inp with
+  | 0 :: rest => Some (None, rest)
+  | 1 :: v :: rest => Some (Some v, rest)
+  | _ => None
+  end.
+
+Definition take_op (inp : list Z) : option (op * list Z) :=
+  match inp with
+  | 0 :: rest => match take_arg rest with Some (a, r) => Some (OpAppend a, r) | None => None end
+  | 1 :: rest => match take_arglist rest with Some (l, r) => Some (OpExtend l, r) | None => None end
+  | 2 :: i :: rest => match take_arg rest with Some (a, r) => Some (OpInsert i a, r) | None => None end
+  | 3 :: rest => match take_arg rest with Some (a, r) => Some (OpRemove a, r) | None => None end
+  | 4 :: i :: rest => Some (OpPop (Some i), rest)
+  | 5 :: rest => Some (OpPop None, rest)
+  | 6 :: rest => Some (OpReverse, rest)
+  | 7 :: rest => Some (OpClear, rest)
+  | 8 :: i :: rest => Some (OpGet i, rest)
+  | 9 :: rest => match take_optz rest with
+                 | Some (lo, r) => match take_optz r with
+                                   | Some (hi, r') => Some (OpSlice lo hi, r')
+                                   | None => None
+                                   end
+                 | None => None
+                 end
+  | 10 :: rest => match take_arg rest with Some (a, r) => Some (OpContains a, r) | None => None end
+  | _ => None
+  end.
+
+Fixpoint take_ops (n : nat) (inp : list Z) : option (list op) :=
+  match n with
+  | O => match inp with [] => Some [] | _ => None end
+  | S n' => match take_op inp with
+            | Some (o, rest) => match take_ops n' rest with
+                                | Some l => Some (o :: l)
+                                | None => None
+                                end
+            | None => None
+            end
+  end.
+
+Definition enc_str (s : pstr) : list Z := zlen s :: s.
+Definition enc_item (it : item) : list Z :=
+  (match it with IG _ => 0 | IW _ => 1 end) :: enc_str (render_item it).
+
+Definition enc_state (st : state) : list Z :=
+  enc_str (m_str st) ++ [m_len st]
+  ++ (zlen (fst st) :: flat_map (fun g => enc_str (render g)) (fst st))
+  ++ (zlen (snd st) :: flat_map enc_item (snd st)).
+
+Definition enc_out (o : out) : list Z :=
+  match o with
+  | ONone => [0]
+  | OVal it => 1 :: enc_item it
+  | OArgs st => 2 :: enc_state st
+  | OBool b => [3; if b then 1 else 0]
+  | ETypeError => [10]
+  | EValueError => [11]
+  | EIndexError => [12]
+  end.
+
+Definition enc_result (r : state * out) : list Z := enc_out (snd r) ++ enc_state (fst r).
+
+(* input: <arglist of the constructor> <number of ops> <ops>;
+   output: record for TexArgs(init) followed by one record per operation;
+   [-1] when the input does not decode *)
+Definition run_args (inp : list Z) : list Z :=
+  match take_arglist inp with
+  | Some (init, n :: rest) =>
+    if n <? 0 then [-1]
+    else match take_ops (Z.to_nat n) rest with
+         | Some ops =>
+           let r0 := m_new init in
+           enc_result r0 ++ flat_map enc_result (m_run (fst r0) ops)
+         | None => [-1]
+         end
+  | _ => [-1]
+  end.
+
+(* ================================================================== *)
+(* Reference list machine (specification side of C18)                   *)
+(* A plain Python list of groups; no shadow list.                       *)
+
+Inductive cls := CGroup (g : group) | CSpace | CBad.
+
+(* '{x}' / '[y]' denote the corresponding group; whitespace is not an argument;
+   anything else is rejected *)
+Definition spec_classify (a : arg) : cls :=
+  match a with
+  | AG g => CGroup g
+  | AS s =>
+    if is_space s then CSpace
+    else match s with
+         | c :: ((_ :: _) as t) =>
+           let d := last t 0 in
+           let b := removelast t in
+           if (c =? 123) && (d =? 125) then CGroup (false, b)
+           else if (c =? 91) && (d =? 93) then CGroup (true, b)
+           else CBad
+         | _ => CBad
+         end
+  end.
+
+Definition group_eqb (g h : group) : bool := Bool.eqb (fst g) (fst h) && pstr_eqb (snd g) (snd h).
+
+Fixpoint remove_first (g : group) (l : list group) : option (list group) :=
+  match l with
+  | [] => None
+  | x :: t => if group_eqb x g then Some t
+              else match remove_first g t with Some t' => Some (x :: t') | None => None end
+  end.
+
+Definition ref_index (n i : Z) : option nat :=
+  let j := if i <? 0 then i + n else i in
+  if (0 <=? j) && (j <? n) then Some (Z.to_nat j) else None.
+
+Definition ref_insert (l : list group) (i : Z) (a : arg) : list group * out :=
+  match spec_classify a with
+  | CBad => (l, ETypeError)
+  | CSpace => (l, ONone)
+  | CGroup g =>
+    let n := zlen l in
+    let k := Z.to_nat (Z.max 0 (Z.min n (if i <? 0 then i + n else i))) in
+    (firstn k l ++ g :: skipn k l, ONone)
+  end.
+
+Fixpoint ref_extend (l : list group) (args : list arg) : list group * out :=
+  match args with
+  | [] => (l, ONone)
+  | a :: t => match spec_classify a with
+              | CBad => (l, ETypeError)
+              | CSpace => ref_extend l t
+              | CGroup g => ref_extend (l ++ [g]) t
+              end
+  end.
+
+Definition ref_step (l : list group) (o : op) : list group * out :=
+  match o with
+  | OpAppend a => ref_extend l [a]
+  | OpExtend args => ref_extend l args
+  | OpInsert i a => ref_insert l i a
+  | OpRemove a =>
+    match spec_classify a with
+    | CBad => (l, ETypeError)
+    | CSpace => (l, EValueError)
+    | CGroup g => match remove_first g l with
+                  | Some l' => (l', ONone)
+                  | None => (l, EValueError)
+                  end
+    end
+  | OpPop i =>
+    match ref_index (zlen l) (match i with Some i => i | None => -1 end) with
+    | None => (l, EIndexError)
+    | Some k => match nth_error l k with
+                | Some g => (firstn k l ++ skipn (S k) l, OVal (IG g))
+                | None => (l, EIndexError)
+                end
+    end
+  | OpReverse => (rev l, ONone)
+  | OpClear => ([], ONone)
+  | OpGet i =>
+    match ref_index (zlen l) i with
+    | None => (l, EIndexError)
+    | Some k => match nth_error l k with
+                | Some g => (l, OVal (IG g))
+                | None => (l, EIndexError)
+                end
+    end
+  | OpSlice lo hi => (l, OArgs (py_slice lo hi l, []))
+  | OpContains (AG g) => (l, OBool (existsb (group_eqb g) l))
+  | OpContains (AS s) => (l, OBool (existsb (fun x => pstr_eqb (snd x) s) l))
+  end.
+
+Fixpoint ref_run (l : list group) (ops : list op) : list (list group * out) :=
+  match ops with
+  | [] => []
+  | o :: t => let r := ref_step l o in r :: ref_run (fst r) t
+  end.
+
+(* what of an outcome the property speaks about: a returned TexArgs is
+   observed through its list, not through its shadow list *)
+Definition obs_out (o : out) : out :=
+  match o with
+  | OArgs st => OArgs (fst st, [])
+  | o => o
+  end.
+
+(* observation of one step: the list, len, str, the outcome *)
+Definition obs_model (r : state * out) : list group * Z * pstr * out :=
+  (fst (fst r), m_len (fst r), m_str (fst r), obs_out (snd r)).
+Definition obs_ref (r : list group * out) : list group * Z * pstr * out :=
+  (fst r, zlen (fst r), concat (map render (fst r)), snd r).
+
+Definition no_bare_pop (o : op) : bool :=
+  match o with OpPop None => false | _ => true end.
+
+Definition is_extend (o : op) : bool :=
+  match o with OpExtend _ => true | _ => false end.
+
+(* the non-whitespace elements of the shadow list, in order *)
+Fixpoint groups_of (all : list item) : list group :=
+  match all with
+  | [] => []
+  | IG g :: t => g :: groups_of t
+  | IW _ :: t => groups_of t
+  end.
+
+Definition ws_item (it : item) : Prop :=
+  match it with IG _ => True | IW s => is_space s = true end.
